@@ -192,6 +192,124 @@ def stmt_coq(s):
 
 
 # ----------------------------------------------------------------------------
+# mirror of Models/Lower.v [in_grammar] (decides which programs get the second case theorem; the
+# generated file re-proves [in_grammar p = true] in the kernel, so a divergence of this mirror from
+# the Coq definition makes the case fail - it cannot make a false theorem pass)
+# ----------------------------------------------------------------------------
+
+REF_FUEL = 4096
+
+
+def ast_block(ss):
+    if not ss:
+        return ("Skip",)
+    parts = [ast_stmt(x) for x in ss]
+    res = parts[-1]
+    for q in reversed(parts[:-1]):
+        res = ("Seq", q, res)
+    return res
+
+
+def ast_stmt(s):
+    k = s[0]
+    if k == "skip":
+        return ("Skip",)
+    if k == "eff":
+        return ("Eff",)
+    if k == "if":
+        return ("If", ast_block(s[2]), ast_block(s[3]))
+    if k == "while":
+        return ("While", ast_block(s[2]))
+    if k == "whilefalse":
+        return ("WhileFalse",)
+    if k == "await":
+        return ("Await", s[1] if s[1] in ("true", "false") else "cond")
+    if k == "break":
+        return ("Break",)
+    if k == "continue":
+        return ("Continue",)
+    return ("Other",)          # return / call / wait / waitin: outside the grammar
+
+
+def g_fo(s, f):
+    k = s[0]
+    if k == "Skip":
+        return f
+    if k == "Seq":
+        return g_fo(s[2], g_fo(s[1], f))
+    if (k == "Await" and s[1] == "true") or k == "WhileFalse":
+        return f
+    return False
+
+
+def g_zfall(s, f):
+    k = s[0]
+    if k in ("Skip", "Eff"):
+        return True
+    if k == "Seq":
+        return g_zfall(s[1], f) and g_zfall(s[2], g_fo(s[1], f))
+    if k == "If":
+        return g_zfall(s[1], False) or g_zfall(s[2], False)
+    if (k == "Await" and s[1] != "false") or k in ("WhileFalse", "While"):
+        return f
+    return False
+
+
+def g_zcnt(s, f):
+    k = s[0]
+    if k == "Continue":
+        return True
+    if k == "Seq":
+        return g_zcnt(s[1], f) or (g_zfall(s[1], f) and g_zcnt(s[2], g_fo(s[1], f)))
+    if k == "If":
+        return g_zcnt(s[1], False) or g_zcnt(s[2], False)
+    return False
+
+
+def g_wf(s, inloop):
+    k = s[0]
+    if k in ("Skip", "Eff", "Await", "WhileFalse"):
+        return True
+    if k in ("Seq", "If"):
+        return g_wf(s[1], inloop) and g_wf(s[2], inloop)
+    if k == "While":
+        return g_wf(s[1], True) and not g_zcnt(s[1], False)
+    if k in ("Break", "Continue"):
+        return inloop
+    return False
+
+
+def g_fneed(s, nf):
+    k = s[0]
+    if k == "Seq":
+        return 1 + g_fneed(s[1], 1 + g_fneed(s[2], nf))
+    if k == "If":
+        return 1 + max(g_fneed(s[1], nf), g_fneed(s[2], nf))
+    if k == "While":
+        return 1 + max(g_fneed(s[1], 1 + nf), nf)
+    return 1 + nf
+
+
+def g_fchk(s, nf):
+    k = s[0]
+    if k == "Seq":
+        return g_fchk(s[1], 1 + g_fneed(s[2], nf)) and g_fchk(s[2], nf)
+    if k == "If":
+        return g_fchk(s[1], nf) and g_fchk(s[2], nf)
+    if k == "While":
+        nl = 2 + g_fneed(s[1], 1 + nf)
+        return g_fneed(s[1], 1 + nf) <= REF_FUEL and nf <= REF_FUEL and g_fchk(s[1], nl)
+    if k in ("Await", "WhileFalse"):
+        return nf <= REF_FUEL
+    return True
+
+
+def in_grammar(prog):
+    a = ast_block(prog)
+    return g_wf(a, False) and g_fchk(a, 1) and g_fneed(a, 1) <= REF_FUEL
+
+
+# ----------------------------------------------------------------------------
 # generator
 # ----------------------------------------------------------------------------
 
@@ -351,6 +469,36 @@ Proof.
   apply (vcheck_s_sound d false (ref_step p) rstate_eqb rstate_eqb_ok rhash alphabet assume 400000 rinit);
     vm_cast_no_check (eq_refl true).
 Qed.
+{low}"""
+
+# second case theorem (programs of Lower.in_grammar): the emitted design against the machine that the
+# Gallina model of the lowering produces for the same program.  LOW_DIRECT explores the product
+# design x machine; LOW_DERIVED obtains the same statement from case_ok and the all-programs theorem
+# LowerProofs.lower_correct (no second exploration).
+LOW_HEAD = """From Cohdl Require Import Equiv.RefTS Models.Lower Models.LowerProofs.
+Example in_gr : in_grammar p = true. Proof. vm_cast_no_check (eq_refl true). Qed.
+Definition m : machine := Eval vm_compute in (lower p).
+Definition assumeZ (_ : list Z) (_ : list value) := true.
+"""
+LOW_DIRECT = LOW_HEAD + """Theorem case_low : forall ins, admissible (mstepZ (lower p)) alphabet assumeZ minitZ ins ->
+  traceA (sstep d false) (power_up_s d) ins = traceB (mstepZ (lower p)) minitZ ins.
+Proof.
+  assert (Hm : lower p = m) by (vm_compute; reflexivity). rewrite Hm.
+  apply (rcheck_s_sound d false (mstepZ m) alphabet assumeZ 400000 minitZ); vm_cast_no_check (eq_refl true).
+Qed.
+Eval vm_compute in (length m).
+"""
+LOW_DERIVED = LOW_HEAD + """Theorem case_low : forall ins, admissible (ref_step p) alphabet assume rinit ins ->
+  traceA (sstep d false) (power_up_s d) ins = traceB (mstepZ (lower p)) minitZ ins.
+Proof. intros ins H. rewrite (lower_correct p in_gr ins). exact (case_ok ins H). Qed.
+Eval vm_compute in (length m).
+"""
+
+DIAG_LOW = """Definition verdict_low := Eval vm_compute in (rcheck_s_bfs d false (mstepZ m) alphabet assumeZ 400000 minitZ).
+Eval vm_compute in verdict_low.
+Eval vm_compute in (match verdict_low with
+  | VCex path => Some (traceA (sstep d false) (power_up_s d) path, traceB (mstepZ m) minitZ path)
+  | _ => None end).
 """
 
 
@@ -381,6 +529,36 @@ def diagnose(path):
         return "cex", {"path": verdict, "traces": outs[1] if len(outs) > 1 else ""}
     if verdict.startswith("VFuel"):
         return "fuel", {}
+    if verdict.startswith("VOk"):
+        return "ref_ok", {"log": (out + err)[-1500:]}
+    return "error", {"log": (out + err)[-1500:]}
+
+
+def diagnose_low(path):
+    """the design agrees with ref_step p; look for an input path on which it differs from mstep (lower p)"""
+    src = open(path).read()
+    if "Theorem case_low" not in src:
+        return "error", {}
+    src = src[:src.index("Theorem case_low")].replace(COUNT, "")
+    # keep the definitions, drop the (possibly failing) proofs
+    a = src.index("Theorem case_ok")
+    b = src.index("Qed.", a) + len("Qed.\n")
+    src = src[:a] + src[b:]
+    src = src.replace("Example in_gr : in_grammar p = true. Proof. vm_cast_no_check (eq_refl true). Qed.\n",
+                      "Eval vm_compute in (in_grammar p).\n")
+    dpath = path[:-2] + "_diaglow.v"
+    with open(dpath, "w") as f:
+        f.write(src + DIAG_LOW)
+    rc, out, err = common.coqc(dpath, 3000)
+    outs = common.coq_outputs(out)
+    if outs and outs[0].strip() == "false":
+        return "grammar", {"log": "harness mirror of Lower.in_grammar disagrees with the Coq definition"}
+    outs = [o for o in outs if o.startswith("V") or o.startswith("Some") or o.startswith("None")]
+    verdict = outs[0] if outs else ""
+    if verdict.startswith("VCex"):
+        return "cex", {"path": verdict, "traces": outs[1] if len(outs) > 1 else ""}
+    if verdict.startswith("VOk"):
+        return "low_ok", {"log": (out + err)[-1500:]}
     return "error", {"log": (out + err)[-1500:]}
 
 
@@ -415,7 +593,8 @@ def all_allow_zero(prog):
     return True
 
 
-def make_case(ck, name, prog, vhdl, count=False):
+def make_case(ck, name, prog, vhdl, count=False, low=None):
+    """low: None | "direct" | "derived" - the second case theorem (see LOW_DIRECT / LOW_DERIVED)"""
     ents, d = R.read_design(vhdl)
     term = R.design_to_coq(d)
     by = {x.name: x for x in d.sigs}
@@ -431,7 +610,8 @@ def make_case(ck, name, prog, vhdl, count=False):
     path = os.path.join(ck.gen, name + ".v")
     with open(path, "w") as f:
         f.write(CASE_TMPL.format(header=common.COQ_HEADER, design=term, prog=block_coq(prog), cands=cands,
-                                 count=COUNT if count else ""))
+                                 count=COUNT if count else "",
+                                low={None: "", "direct": LOW_DIRECT, "derived": LOW_DERIVED}[low]))
     return path
 
 
@@ -460,9 +640,12 @@ def run(ck: common.Check, replay=None):
         "Vhdl.Sem as a rendering of the VHDL-93 simulation cycle, two-valued logic (modelled, validated on 167 upstream designs)",
         "Coro.ref (Models/Coro.v) as the rendering of 'executing the Python source as a coroutine' (DESIGN.md Appendix A)",
         "generator AST -> CoHDL source printer (harness/c01.py)",
+        "Lower.lower (Models/Lower.v) as a rendering of IrGenerator's open-block lowering: tied per program "
+        "(case_low: emitted design = mstep (lower p) for all input sequences; state counts compared), not proved about the Python code",
     ]
     ck.assumptions += [
-        "programs quantifier is sampled: corpus + seeded generator (sizes in coverage); inputs/schedules quantifier is proved per program by explore_sound",
+        "programs quantifier: for the MODEL of the lowering it is proved (C01_lower_correct, all programs of Lower.in_grammar); "
+        "for the real compiler it is sampled: corpus + seeded generator (sizes in coverage); inputs/schedules quantifier is proved per program by explore_sound",
         "inputs change while the clock is low; one rising edge per step",
     ]
     progs = []
@@ -475,14 +658,22 @@ def run(ck: common.Check, replay=None):
         g = Gen(ck.rng, max_stmts=10 if ck.tier == "quick" else 14, max_depth=3)
         for i in range(n_rand):
             progs.append((f"rand{i:04d}", g.program()))
-    run_programs(ck, progs)
+    run_programs(ck, progs, low=True)
 
 
-def run_programs(ck, progs, what="emitted state machine and coroutine semantics differ on an input sequence"):
+def vhdl_state_count(vhdl):
+    """number of states of the emitted state machine (1 = collapsed to a plain process)"""
+    import re
+    m = re.search(r"type\s+state_\w+\s+is\s*\(([^)]*)\)", vhdl)
+    return len(re.findall(r"state_\d+", m.group(1))) if m else 1
+
+
+def run_programs(ck, progs, what="emitted state machine and coroutine semantics differ on an input sequence", low=False):
     designs = [{"name": n, "source": to_source(p), "entity": "E"} for n, p in progs]
     res = common.run_worker("compile_worker.py", {"dir": os.path.join(ck.gen, "src"), "designs": designs, "jobs": common.NCPU},
                             timeout=3000)["results"]
     cases = []
+    n_gram = 0
     for (name, prog), r in zip(progs, res):
         ck.evaluations += 1
         f = features(prog)
@@ -492,23 +683,56 @@ def run_programs(ck, progs, what="emitted state machine and coroutine semantics 
                 ck.count("unexpected_rejections")
                 ck.sample({"rejected": r["error"][:200], "program": prog})
             continue
+        mode = None
+        if low and in_grammar(prog):
+            # explore design x lowered machine (corpus, replays, thorough tier: all; quick tier: three of
+            # four generated programs); the others get the same statement through case_ok + lower_correct,
+            # which exercises the all-programs theorem on a concrete in_grammar proof
+            direct = ck.tier != "quick" or not name.startswith("rand") or n_gram % 4 != 3
+            mode = "direct" if direct else "derived"
+            n_gram += 1
         try:
-            path = make_case(ck, name, prog, r["vhdl"], count=(len(cases) % 10 == 0))
+            path = make_case(ck, name, prog, r["vhdl"], count=(len(cases) % 10 == 0), low=mode)
         except R.Unparsed as e:
             ck.obligation(False)
             ck.violation({"program": json.dumps(prog)}, "emitted VHDL left the parsed subset: " + str(e),
                          {"program": prog, "source": to_source(prog), "vhdl": r["vhdl"]}, no_input=True)
             continue
-        cases.append((name, prog, r["vhdl"], path))
+        cases.append((name, prog, r["vhdl"], path, mode))
         for k in f:
             ck.hist("constructs", k)
         ck.hist("stmts", sum(v for k, v in f.items() if k != "depth"))
     outs = common.coqc_many([c[3] for c in cases], timeout=1800)
     states = trans = 0
-    for (name, prog, vhdl, path), (rc, out, err) in zip(cases, outs):
+    for (name, prog, vhdl, path, mode), (rc, out, err) in zip(cases, outs):
         status, info = classify(rc, out, err)
+        low_status, low_info = ("ok" if status == "ok" else "unknown"), {}
         if status != "ok":
             status, info = diagnose(path)
+            if status == "ref_ok" and mode is not None:
+                # the property holds for this program; the second theorem is the one that failed
+                status, info = "ok", {"states": 0, "transitions": 0}
+                low_status, low_info = diagnose_low(path)
+        if mode is not None and status == "ok":
+            ck.hist("lower_tie", mode)
+            if low_status == "ok":
+                ck.obligation(True)
+                nums = [o.strip() for o in common.coq_outputs(out)]
+                n_model = int(nums[-1]) if nums and nums[-1].isdigit() else -1
+                n_vhdl = vhdl_state_count(vhdl)
+                ck.hist("lower_state_count", "equal" if n_model == n_vhdl else "model %d / emitted %d" % (n_model, n_vhdl))
+                ck.hist("lower_states", n_model)
+                if n_model != n_vhdl:
+                    ck.sample({"state_count_differs": {"model": n_model, "emitted": n_vhdl}, "program": prog}, limit=8)
+            else:
+                ck.obligation(False)
+                rep = {"program": prog, "source": to_source(prog), "vhdl": vhdl, "case_file": path,
+                       "status": low_status, "correspondence": "Models/Lower.v lower  <->  IrGenerator._apply_impl (Await/While/"
+                       "Break/Continue/If) + StatemachineContext: emitted design vs mstep (lower p)"}
+                rep.update(low_info)
+                ck.violation({"program": json.dumps(prog), "tie": "lower"},
+                             "emitted design equals the coroutine semantics but differs from the Gallina model of the "
+                             "lowering (Lower.lower is out of date or wrong; status %s)" % low_status, rep, no_input=True)
         if status == "ok":
             ck.obligation(True)
             states += info["states"]
@@ -518,12 +742,13 @@ def run_programs(ck, progs, what="emitted state machine and coroutine semantics 
                 ck.nontrivial(prog)
             if info["states"]:
                 ck.sample({"program": prog, "product_states": info["states"], "transitions": info["transitions"]}, limit=4)
-            os.unlink(path)
-            for ext in (".vo", ".glob", ".vok", ".vos"):
-                try:
-                    os.unlink(path[:-2] + ext)
-                except OSError:
-                    pass
+            if low_status in ("ok", "unknown"):
+                os.unlink(path)
+                for ext in (".vo", ".glob", ".vok", ".vos"):
+                    try:
+                        os.unlink(path[:-2] + ext)
+                    except OSError:
+                        pass
         else:
             ck.obligation(False)
             rep = {"program": prog, "source": to_source(prog), "vhdl": vhdl, "case_file": path, "status": status}
@@ -536,6 +761,8 @@ def run_programs(ck, progs, what="emitted state machine and coroutine semantics 
     ck.cov["programs"] = len(cases)
     ck.cov["states"] = states
     ck.cov["transitions"] = trans
+    if low:
+        ck.cov["programs_in_lower_grammar"] = n_gram
     ck.cov["rule"] = ("programs = fixed corpus (one per anchored mechanism) + seeded random bodies over "
                       "if/while/await/break/continue/return/call; non-trivial = accepted, proved, and containing "
                       "at least one await or while; distinct by program text")
